@@ -334,6 +334,15 @@ retry:
 				goto finished
 			}
 
+			// The successor recorded by the search may have been deleted since
+			// (an equal item removed while this insert was in flight). Linking
+			// in front of it would hide it from its deleter's cleanup, which
+			// stops at the first equal item; search again, which unlinks it.
+			if _, nextDeleted := next.getNext(i); nextDeleted {
+				s.findPath(itm, insCmp, buf, sts)
+				continue fixThisLevel
+			}
+
 			verifYield(vpInsUpLink, unsafe.Pointer(s))
 			if buf.preds[i].dcasNext(i, next, x, false, false) {
 				// A concurrent delete may have marked this level and finished
